@@ -47,6 +47,9 @@ def oracle(pystog, case, res):
     two-step paths through every intermediate; finite conventional value at x = 0"""
     if "exception" in res:
         return "conversion raised %s: %s" % (res["exception"], res["message"])
+    msg_ = L.same_arrays_twice(pystog, case)
+    if msg_:
+        return msg_
     sp, a, b, m = case["space"], case["X"], case["Y"], case["mat"]
     names = L.RN if sp == 0 else L.GN
     x = np.array(case["x"], float)
